@@ -88,6 +88,33 @@ SQLITE_DECLARED_UNSUPPORTED = {"sqlite": ("AbsoluteTimeDifferenceLevel", "Absolu
                                           "PairwiseStringDistanceFunctionLevel")}
 
 
+# declared unsupported by the library although the named functions exist (unsupported_splink_dialects decorator)
+PINNED_UNSUPPORTED_COMPARISONS = {("sqlite", "PairwiseStringDistanceFunctionAtThresholds")}
+
+
+def completeness_obligation(ctx: Ctx, insts, comps):
+    """AUDIT_2 B5: the grids are hand-written; every public creator class of the library must be in them"""
+    import inspect
+
+    import splink.comparison_level_library as cll
+    import splink.comparison_library as cl
+    from splink.internals.comparison_creator import ComparisonCreator
+    from splink.internals.comparison_level_creator import ComparisonLevelCreator
+    lev = {n for n, o in vars(cll).items() if inspect.isclass(o) and issubclass(o, ComparisonLevelCreator) and not n.startswith("_")
+           and o is not ComparisonLevelCreator}
+    cmpn = {n for n, o in vars(cl).items() if inspect.isclass(o) and issubclass(o, ComparisonCreator) and not n.startswith("_")
+            and o is not ComparisonCreator}
+    # ElseLevel / CustomLevel are covered as members of every comparison / of CustomComparison, not as grid families
+    miss_l = sorted(lev - {"ElseLevel", "CustomLevel"} - {i.family for i in insts})
+    miss_c = sorted(cmpn - {c.name for c in comps})
+    ctx.cov["library_level_creators"] = sorted(lev)
+    ctx.cov["library_comparison_creators"] = sorted(cmpn)
+    ok = ctx.obligation("every public level / comparison creator class of the library is in the grids", not miss_l and not miss_c, f"{miss_l} {miss_c}")
+    if not ok:
+        ctx.violation(f"creator classes outside the checked grids: levels {miss_l}, comparisons {miss_c}",
+                      {"broken": "grid completeness", "levels": miss_l, "comparisons": miss_c}, {"grid_incomplete": True}, found_input=False)
+
+
 def comparison_obligations(ctx: Ctx, comps):
     terms, metas, structures = [], [], {}
     unsupported = []
@@ -96,7 +123,21 @@ def comparison_obligations(ctx: Ctx, comps):
             try:
                 st = T.comparison_structure(inst, d)
             except (ValueError, NotImplementedError) as e:
-                unsupported.append(f"{d}:{inst.key}")
+                # a creator may refuse a dialect only where the documented function is absent there (the documented level list
+                # cannot be built: T.Unsupported) or where the library declares it unsupported (pinned table); anything else -
+                # in particular a creator that starts raising on DuckDB - is an alarm, not less coverage
+                try:
+                    inst.meta["expected"](d)
+                    expected_unsupported = (d, inst.name) in PINNED_UNSUPPORTED_COMPARISONS
+                except T.Unsupported:
+                    expected_unsupported = True
+                if expected_unsupported:
+                    unsupported.append(f"{d}:{inst.key}")
+                else:
+                    ctx.obligation(f"comparison {inst.key} available on {d}", False, repr(e)[:200])
+                    ctx.violation(f"{inst.key} raises on {d} although every documented function exists there: {e!r}"[:300],
+                                  {"case": {"comparison": inst.key, "dialect": d}, "implementation": repr(e)[:300], "specification": "comparison available"},
+                                  {"dialect": d, "comparison": inst.name, "raises": True})
                 continue
             except T.Untranslatable as e:
                 ctx.obligation(f"translate comparison {inst.key} on {d}", False, str(e))
@@ -231,6 +272,7 @@ def run(ctx: Ctx):
             return
     for i in insts:
         ctx.hist("level_grid_family", i.family)
+    completeness_obligation(ctx, insts, comps)
     failing_levels, err1 = level_obligations(ctx, insts)
     failing_comps, structures, err2 = comparison_obligations(ctx, comps)
 
